@@ -2,6 +2,8 @@
 
 package controller
 
+import v1 "k8s.io/api/core/v1"
+
 func init() {
 	verifHarnesses["VerifHarness_C07"] = VerifHarness_C07
 }
@@ -9,7 +11,8 @@ func init() {
 // VerifHarness_C07: when N more nodes are needed, tainted nodes are untainted
 // first (newest first) and exactly the remainder is requested on top of the
 // cloud group's desired size at call time.
-// shape: [nodes, failure budget, class menu, mode (0 utilisation scale-up, 1 below-minimum recovery)]
+// shape: [nodes, failure budget, class menu, mode (0 utilisation scale-up, 1 below-minimum recovery), prior scan,
+//         effect of the taints on the nodes free (0/1), up to K newest nodes unreachable at the API server (then nodes are fixed: N-1 tainted, newest first, and one untainted)]
 func VerifHarness_C07() {
 	N, F, menu, mode := verifShape(0), verifShape(1), verifShape(2), verifShape(3)
 	w := newWorld(F)
@@ -22,8 +25,29 @@ func VerifHarness_C07() {
 	}
 	extra := verifInt("asg.extraDesired", 0, 1)
 	g := w.addGroup(o, 0, asgMax, extra)
-	classes := [][]int{{tcNone, tcEsc}, {tcNone, tcEsc, tcForce}, {tcEsc, tcForce}}[menu]
-	w.symNodes("", g, N, classes, false, []int{0}, true)
+	classes := [][]int{{tcNone, tcEsc}, {tcNone, tcEsc, tcForce}, {tcEsc, tcForce}, {tcEsc}}[menu]
+	if verifShape(5) == 1 {
+		// the taints already on the nodes carry whatever effect was configured when they were applied
+		w.escEffect = []v1.TaintEffect{v1.TaintEffectNoSchedule, v1.TaintEffectNoExecute, v1.TaintEffectPreferNoSchedule}[verifChoice("effectOnNodes", 3)]
+	}
+	K := verifShape(6) // the K newest nodes cannot be reached at the API server
+	if K > 0 {
+		// creation ages fixed: n0 newest
+		for i := 0; i < N; i++ {
+			cl := tcEsc
+			if i == N-1 {
+				cl = tcNone // one untainted node provides the capacity figure
+			}
+			w.addNode(g, cl, false, 0, 10, int64(100+100*i), true)
+		}
+		w.unreachable = map[string]bool{}
+		kk := int(verifInt("unreachableNewest", 0, int64(K)))
+		for i := 0; i < kk; i++ {
+			w.unreachable[w.nodes[i].name] = true
+		}
+	} else {
+		w.symNodes("", g, N, classes, false, []int{0}, true)
+	}
 	if mode == 0 {
 		w.symPods("", g, 1, 1, false, -6*w.cpuPerNode, false)
 	}
@@ -80,7 +104,7 @@ func VerifHarness_C07() {
 			verifAssert("C07.newest-first", !(t.createAge < u.createAge))
 		}
 	}
-	if F == 0 {
+	if F == 0 && K == 0 {
 		verifAssert("C07.untaint-count", verifImplies(scaling, int64(j.untaints) == imin(need, s.tainted)))
 	}
 	verifAssert("C07.untaint-at-most-needed", verifImplies(scaling, int64(j.untaints) <= need))
